@@ -57,6 +57,17 @@ attack("class bases changed (TleParseError no longer a ValueError)", "beyond/io/
 attack("class bases changed (ParseError)", "beyond/errors.py",
        "class ParseError(ValueError):", "class ParseError(Exception):")
 
+attack("in-place add on a slice view of the initial orbit (new = self.orbit[:]; new += delta)", "beyond/propagators/j2.py",
+       "new = self.orbit[:] + delta", "new = self.orbit[:]\n        new += delta")
+attack("rebinding instead of in-place wrap (new[3:] = ... -> tail = new[3:]; tail = tail % 2pi)", "beyond/propagators/j2.py",
+       "new[3:] = new[3:] % (2 * np.pi)", "tail = new[3:]\n        tail = tail % (2 * np.pi)")
+attack("float for int in an array display ([1, 0, 0] -> [1.0, 0, 0]); harmless here, never to be identified in general", "beyond/utils/matrix.py",
+       "[1, 0, 0]", "[1.0, 0, 0]")
+attack("is for == on a string", "beyond/orbits/man.py",
+       'XX')
+attack("`x or default` for an explicit None test", "beyond/propagators/keplernum.py",
+       "if b_star is None:", "if not b_star:")
+
 
 def run(verbose=False):
     bad = []
